@@ -27,7 +27,7 @@ TECHNIQUE = ("runtime monitoring: application-protocol / Deferred / wire recorde
              "_TorSocksProtocol + reference SOCKS5 reply encoder as oracle, evaluated after every delivered chunk; all 256 reply "
              "codes x 4 address types, exhaustive 1-/2-cut segmentations, disconnect at every chunk boundary; icontract "
              "postcondition relaying => empty buffer")
-LEVEL_TEXT = ("Held on the executions observed: ~60k (quick) to ~1.3M (thorough) scripted server streams, the "
+LEVEL_TEXT = ("Held on the executions observed: ~54k (quick) to ~1.4M (thorough) scripted server streams, the "
               "oracle evaluated after every chunk. Reply codes 0..255 x address types and domain lengths 1..255 are enumerated "
               "completely, as are all 1- and 2-cut segmentations (and every boundary disconnect) of the short streams "
               "(thorough: for every one of the 256 codes x 4 address types); "
@@ -44,7 +44,7 @@ ASSUMPTIONS = [
     "server model is causal: the method reply is delivered only after the greeting was written, the request reply only after request bytes were written; application bytes may share a chunk with the end of the success reply",
     "a chunk that carries method-reply and request-reply bytes together violates causality: counted (acausal_cases), only at-most-once / nothing-before-success / prefix safety is judged on it",
     "replies are well-formed per RFC 1928 section 6 (RSV 0) except for the deliberately wrong version / unknown address type; unknown-address-type replies carry 4..6 raw bytes + port (>= 8 bytes in all); zero-length domain replies are not generated",
-    "expected errors: the class named after the RFC 1928 reply code for codes 1..8, SocksError with .code == code for other non-zero codes; any SocksError for wrong version / refused method / unknown address type (with an error code and an unknown address type: any SocksError whose .code is unset or equal to the reply code); any failure for a disconnect",
+    "expected errors: the class named after the RFC 1928 reply code for codes 1..8, SocksError with .code == code for other non-zero codes; any SocksError for wrong version / refused method / unknown address type (a non-zero reply code is judged by its code even when the address type is unknown); any failure for a disconnect",
     "failure must have been reported by quiescence (whole script delivered or connection lost); success must have been reported by the end of the chunk carrying the last byte of the success reply",
     "a disconnect between the code byte and the end of a failure reply may be reported as either",
     "an exception escaping dataReceived / feed_data drops the connection (Twisted reactor behaviour, emulated); after the client calls loseConnection nothing more is delivered",
@@ -79,12 +79,14 @@ FLOORS = {
               "reach:txtorcon.socks:_SocksMachine._make_connection": 500,
               "reach:txtorcon.socks:_create_socks_error": 1400,
               "reach:txtorcon.socks:TorSocksEndpoint.connect": 1400},
-    "thorough": {"evaluations": 80000, "chunks_judged": 300000, "outcomes_compared": 200000,
-                 "app_bytes_compared": 300000, "app_writes_compared": 60000, "disconnects_injected": 20000,
-                 "contract_evaluations": 300000, "error_classes_compared": 60000, "resolve_results_compared": 8000,
-                 "reach:txtorcon.socks:_SocksMachine._parse_request_reply": 200000,
-                 "reach:txtorcon.socks:_SocksMachine._relay_data": 10000,
-                 "reach:txtorcon.socks:TorSocksEndpoint.connect": 15000},
+    "thorough": {"evaluations": 140000, "chunks_judged": 450000, "outcomes_compared": 350000,
+                 "app_bytes_compared": 600000, "app_writes_compared": 150000, "disconnects_injected": 50000,
+                 "contract_evaluations": 400000, "error_classes_compared": 150000, "resolve_results_compared": 8000,
+                 "reach:txtorcon.socks:_SocksMachine._parse_request_reply": 230000,
+                 "reach:txtorcon.socks:_SocksMachine._relay_data": 20000,
+                 "reach:txtorcon.socks:_SocksMachine._make_connection": 11000,
+                 "reach:txtorcon.socks:_create_socks_error": 49000,
+                 "reach:txtorcon.socks:TorSocksEndpoint.connect": 40000},
 }
 
 METHOD_REPLIES = {"ok": (5, 0), "m1": (5, 1), "m2": (5, 2), "mff": (5, 0xFF), "v4": (4, 0), "v6": (6, 0), "v0": (0, 0)}
@@ -131,7 +133,9 @@ def expect(case):
     if rver != 5:
         return {"kind": "fail", "why": "reply-version", "code": None, "strict": False}
     if code != 0:
-        return {"kind": "fail", "why": "reply-code", "code": code, "strict": atyp in KNOWN_ATYP}
+        # a reply with a non-zero code is a failure reply whatever its address type says
+        # ("the SOCKS error that corresponds to the reply code"); servers do send ATYP 0 there
+        return {"kind": "fail", "why": "reply-code", "code": code, "strict": True}
     if atyp not in KNOWN_ATYP:
         return {"kind": "fail", "why": "address-type", "code": None, "strict": False}
     if case["req"] == "CONNECT":
@@ -1021,7 +1025,7 @@ def plan(tier, seed):
             specs.append({"mode": "domains", "mod": 2, "rem": rem})
         specs.append({"mode": "method"})
         for k in range(5):
-            specs.append({"mode": "random", "n": 6000})
+            specs.append({"mode": "random", "n": 4500})
     else:
         for rem in range(8):
             specs.append({"mode": "codes", "mod": 8, "rem": rem, "timeout_s": 3000})
